@@ -15,7 +15,7 @@ Extraction "extracted/model.ml"
   visits leaf_tags
   faccept_disp ftrace_seq fgroup
   World.step World.empty_world World.probe World.dropped World.run
-  sd_reads sd_writes sd_setup sd_setup_calls sd_fetch drop_guards classes present_mask world_with
+  sd_reads sd_writes sd_setup sd_setup_calls sd_exec sd_fetch drop_guards classes present_mask world_with
   mstep empty_mstate dedup_first mrun
   t_reads t_writes t_leaves build_panics par_ok tree_accept order_ok seq_trace
   acc_run acc_init
